@@ -532,7 +532,7 @@ impl HScenario {
                     for _ in 0..*times {
                         let dbg = cur.debug();
                         let json = cur.to_json();
-                        if crate::framework::has_nonfinite_field(&dbg) || json == "null" {
+                        if crate::framework::nonfinite_state(&dbg, &json, cur.ranges().into_iter()) || json == "null" {
                             // infinite outer edge (outside C18's precondition), or the const-generic
                             // twin, which has no serde support
                             st.bump("probe.checkpoint_nonfinite_skipped");
